@@ -28,10 +28,15 @@ fn boundaries(t: &str) -> Vec<usize> {
 /// C14 oracle for one (CR-free) document; `offsets` = boundaries to check, `pairs` = check all
 /// ordered pairs among them.
 pub fn c14_doc(text: &str, offsets: &[usize], pairs: bool) -> Vec<(String, String)> {
+    c14_doc_with(text, offsets, pairs, None)
+}
+
+/// The same oracle on a given (text, line map) pair - the server's stored copy after edits.
+pub fn c14_doc_with(text: &str, offsets: &[usize], pairs: bool, stored: Option<(Arc<str>, Arc<LineMap>)>) -> Vec<(String, String)> {
     let mut out = vec![];
     let r = catch(|| {
         let mut out = vec![];
-        let (norm, lm) = line_map_of(text);
+        let (norm, lm) = stored.clone().unwrap_or_else(|| line_map_of(text));
         if &*norm != text {
             out.push(("normalize".to_string(), format!("normalised text differs from CR-free input {text:?}")));
             return out;
@@ -95,6 +100,98 @@ pub fn c14_doc(text: &str, offsets: &[usize], pairs: bool) -> Vec<(String, Strin
 }
 
 const C14_SYMS: &[&str] = &["a", "\n", "é", "€", "😀"];
+
+/// Documents reached through edits: every document <= n symbols, every valid single edit
+/// (replacement <= 1 symbol) and, below that, every second edit - applied to the real Vfs; the
+/// STORED line map of the result must satisfy the whole C14 oracle (round trip, monotonicity,
+/// agreement with the client, to_range) like the line map of a freshly opened document.
+fn after_edits_layer(rep: &mut Report, tier: Tier) {
+    let n1 = tier.pick(4usize, 5usize);
+    let n2 = tier.pick(3usize, 3usize);
+    let docs = words_upto(C14_SYMS, n1);
+    let reps = words_upto(C14_SYMS, 1);
+    let edits_of = |t: &str| -> Vec<Act> {
+        let d = RefDoc::new(t);
+        let pos = d.valid_positions();
+        let mut v = vec![];
+        for (i, (ps, _)) in pos.iter().enumerate() {
+            for (pe, _) in pos.iter().skip(i) {
+                for r in &reps {
+                    v.push(Act::Edit { start: *ps, end: *pe, text: r.clone() });
+                }
+            }
+        }
+        v
+    };
+    let res: Vec<(u64, Vec<Violation>)> = docs
+        .par_iter()
+        .map(|d0| {
+            let mut n = 0u64;
+            let mut viol: Vec<Violation> = vec![];
+            let two = sym_count(d0) <= n2;
+            let apply = |vfs: &mut Vfs, f: ide::FileId, a: &Act| -> Result<(), String> {
+                let Act::Edit { start, end, text } = a else { return Ok(()) };
+                let range = Range::new(Position::new(start.0, start.1), Position::new(end.0, end.1));
+                let (_, r) = gv::from_range(vfs, f, range).map_err(|e| e.to_string())?;
+                vfs.change_file_content(f, Some(r), text).map_err(|e| e.to_string())
+            };
+            for a1 in edits_of(d0) {
+                let Some(t1) = ref_step(d0, &a1) else { continue };
+                let seconds: Vec<Option<Act>> = if two { std::iter::once(None).chain(edits_of(&t1).into_iter().map(Some)).collect() } else { vec![None] };
+                for a2 in seconds {
+                    let t2 = match &a2 {
+                        None => t1.clone(),
+                        Some(a) => match ref_step(&t1, a) {
+                            Some(t) => t,
+                            None => continue,
+                        },
+                    };
+                    n += 1;
+                    let r = catch(|| {
+                        let mut vfs = Vfs::new();
+                        let f = vfs.set_path_content(VfsPath::new("/doc.gleam"), d0.clone());
+                        apply(&mut vfs, f, &a1)?;
+                        if let Some(a) = &a2 {
+                            apply(&mut vfs, f, a)?;
+                        }
+                        Ok::<_, String>((vfs.content_for_file(f), vfs.line_map_for_file(f)))
+                    });
+                    let fails: Vec<(String, String)> = match r {
+                        Ok(Ok(stored)) => {
+                            let b = boundaries(&t2);
+                            c14_doc_with(&t2, &b, true, Some(stored))
+                        }
+                        Ok(Err(e)) => vec![("edit-rejected".into(), e)],
+                        Err(m) => vec![("panic".into(), panic_class(&m))],
+                    };
+                    for (class, detail) in fails {
+                        if viol.len() < 4 {
+                            let acts: Vec<serde_json::Value> = std::iter::once(&a1).chain(a2.iter()).map(act_json).collect();
+                            viol.push(Violation { class: class.clone(), key: format!("after-edits|{class}|{} edit(s)", acts.len()), witness: json!({"open": d0, "edits": acts}), detail: format!("open {d0:?}, edits {acts:?} (client document now {t2:?}): {detail}") });
+                        }
+                    }
+                }
+            }
+            (n, viol)
+        })
+        .collect();
+    let mut n = 0;
+    for (k, v) in res {
+        n += k;
+        for x in v {
+            rep.violation(x);
+        }
+    }
+    rep.layer(Layer {
+        name: "documents-reached-through-edits".into(),
+        states: docs.len() as u64,
+        transitions: n,
+        executions: n,
+        exhaustive: true,
+        bound: format!("all documents <= {n1} symbols over {{a, LF, 2/3/4-byte}} x every valid single edit (replacement <= 1 symbol), and for documents <= {n2} symbols every second edit, applied to the real Vfs; the stored line map of the result x every boundary x every ordered pair: the full C14 oracle"),
+        ..Default::default()
+    });
+}
 
 pub fn run_c14(tier: Tier) -> i32 {
     let mut rep = Report::new("C14", tier);
@@ -198,6 +295,7 @@ pub fn run_c14(tier: Tier) -> i32 {
         rep.caps.push(json!({"layer": "long-docs", "cap": "sampled boundaries (every 1021st)", "completed": "all 155 periodic documents"}));
     }
     server_locations_layer(&mut rep, tier);
+    after_edits_layer(&mut rep, tier);
     rep.distinct_nontrivial = nontrivial.load(Ordering::Relaxed);
     rep.distinct_outcomes = 1 + rep.violations.iter().map(|v| v.class.clone()).collect::<std::collections::BTreeSet<_>>().len() as u64;
     rep.rule = "documents enumerated exhaustively; non-trivial = distinct documents containing both a line break and a multi-byte character".into();
@@ -480,6 +578,30 @@ fn server_locations_layer(rep: &mut Report, tier: Tier) {
 }
 
 pub fn replay_c14(w: &serde_json::Value) -> Vec<String> {
+    if let (Some(open), Some(edits)) = (w["open"].as_str(), w["edits"].as_array()) {
+        let mut vfs = Vfs::new();
+        let f = vfs.set_path_content(VfsPath::new("/doc.gleam"), open.to_owned());
+        let mut t = open.to_string();
+        for e in edits {
+            let Some(a) = act_from_json(e) else { return vec!["bad witness".into()] };
+            let Some(nt) = ref_step(&t, &a) else { return vec!["invalid edit in witness".into()] };
+            t = nt;
+            if let Act::Edit { start, end, text } = &a {
+                let range = Range::new(Position::new(start.0, start.1), Position::new(end.0, end.1));
+                let r = catch(|| gv::from_range(&vfs, f, range).map(|x| x.1).map_err(|e| e.to_string()));
+                match r {
+                    Ok(Ok(r)) => {
+                        if let Err(e) = vfs.change_file_content(f, Some(r), text) {
+                            return vec![format!("edit-rejected: {e}")];
+                        }
+                    }
+                    other => return vec![format!("edit-rejected: {other:?}")],
+                }
+            }
+        }
+        let b = boundaries(&t);
+        return c14_doc_with(&t, &b, true, Some((vfs.content_for_file(f), vfs.line_map_for_file(f)))).into_iter().map(|(c, d)| format!("{c}: {d}")).collect();
+    }
     if w.get("prefix_a").is_some() {
         // server-locations layer: re-run it and report what it finds for the same configuration and request
         let mut rep = Report::new("C14", Tier::Thorough);
